@@ -196,3 +196,13 @@ func (obj *Vector) SetFillPointer(fp int) {
 	}
 	obj.FillPtr = fp
 }
+
+// LoadForm returns a form that can be evaluated to create the object, with
+// the fill pointer if the vector has one.
+func (obj *Vector) LoadForm() Object {
+	form := obj.Array.LoadForm().(List)
+	if 0 <= obj.FillPtr {
+		form = append(form, Symbol(":fill-pointer"), Fixnum(obj.FillPtr))
+	}
+	return form
+}
